@@ -111,15 +111,73 @@ func (c *Ctx) StoreCommit(prop string, s *Slashing) {
 		// every index is Set before Flush: Flush is reachable only through the exit edge of a full-range loop over keys
 		// whose every iteration performs wb.Set(keys[i], values[i]) and leaves on error.
 		keysP, valsP := fn.Params[paramIdxByName(fn, 2)], fn.Params[paramIdxByName(fn, 3)]
+		// (second form) an intermediate list of entries: `entries := make([]*badger.Entry, len(keys))`, filled at every index
+		// with badger.NewEntry(keys[i], values[i]) by a full-range loop over keys, then handed to wb.SetEntry one by one
+		var entriesRoot ssa.Value
+		for _, l1 := range FindLoops(fn) {
+			if !l1.FullRange || l1.BoundLen != ssa.Value(keysP) {
+				continue
+			}
+			var root ssa.Value
+			fill := func(ins ssa.Instruction) bool {
+				st, ok := ins.(*ssa.Store)
+				if !ok {
+					return false
+				}
+				ia, ok := st.Addr.(*ssa.IndexAddr)
+				if !ok || ia.Index != l1.Idx {
+					return false
+				}
+				ms, ok := sliceRootExact(ia.X).(*ssa.MakeSlice)
+				if !ok {
+					return false
+				}
+				ln, ok := stripConvert(ms.Len).(*ssa.Call)
+				if !ok || !isBuiltin(ln, "len") || sliceRoot(ln.Call.Args[0]) != ssa.Value(keysP) {
+					return false
+				}
+				ne, ok := st.Val.(*ssa.Call)
+				if !ok || !IsCallTo(ne, pkgBadger+".NewEntry") || len(ne.Call.Args) != 2 {
+					return false
+				}
+				if !(isElemLoad(ne.Call.Args[0], keysP, l1.Idx) || isRangeValueOf(ne.Call.Args[0], keysP, l1.Idx)) || !isElemLoad(ne.Call.Args[1], valsP, l1.Idx) {
+					return false
+				}
+				root = ms
+				return true
+			}
+			// an iteration reaches the next one only after the store; leaving the loop early must leave the function
+			if !l1.IterationSkips(fill) && root != nil {
+				leaves := true
+				for _, e := range l1.BreakEdges() {
+					if x, _ := an.Cut(an.CutQuery{From: an.Point{Block: e[1], Idx: 0}, Target: func(i ssa.Instruction) bool {
+						ci, ok := i.(ssa.CallInstruction)
+						return ok && IsCallTo(ci, wbFlush)
+					}}); x != nil {
+						leaves = false
+					}
+				}
+				if leaves {
+					entriesRoot = root
+				}
+			}
+		}
 		var good *Loop
 		for _, l := range FindLoops(fn) {
-			if !l.FullRange || l.BoundLen != ssa.Value(keysP) {
+			if !l.FullRange || !(l.BoundLen == ssa.Value(keysP) || (entriesRoot != nil && l.BoundLen == entriesRoot)) {
 				continue
 			}
 			l := l
 			var setCall ssa.CallInstruction
 			skips := l.IterationSkips(func(ins ssa.Instruction) bool {
 				ci, ok := ins.(ssa.CallInstruction)
+				if ok && entriesRoot != nil && l.BoundLen == entriesRoot && IsCallTo(ci, "(*"+pkgBadger+".WriteBatch).SetEntry") && len(ci.Common().Args) == 2 {
+					if isElemLoad(ci.Common().Args[1], entriesRoot, l.Idx) {
+						setCall = ci
+						return true
+					}
+					return false
+				}
 				if !ok || !IsCallTo(ci, wbSet) {
 					return false
 				}
@@ -442,3 +500,6 @@ func (c *Ctx) RecordBeforeApprove(prop string, s *Slashing, kind string) {
 }
 
 var _ = types.Identical
+
+// isRangeValueOf: v is the element of root at idx as a range loop hands it out (a load of &root[idx]).
+func isRangeValueOf(v ssa.Value, root ssa.Value, idx ssa.Value) bool { return isElemLoad(v, root, idx) }
